@@ -83,6 +83,8 @@ fn setup() -> &'static Setup {
 pub fn model_text(model: &str) -> Option<String> {
   if model == "gen" {
     std::fs::read_to_string(data_dir().join("gen.dmn")).ok()
+  } else if let Some(name) = model.strip_prefix("edge:") {
+    std::fs::read_to_string(data_dir().join("edge").join(name)).ok()
   } else {
     std::fs::read_to_string(format!("{}/examples/src/{}", repo_dir(), model)).ok()
   }
